@@ -24,18 +24,36 @@ ATOMS = ["\n", " \n", "\t \n", "#c\n", "# \n", " x\n", "\tx y\n", " #n\n", "A: b
          "X\x7fY: v\n", "\x80\u00ff\u2028: v\n"]
 
 
-def check_lines(real_parse, real_tok, lines, t, mode):
+def poison(real_parse, real_tok):
+    """parses that fail half way (the line source raises, undecodable bytes) - what they leave behind must not reach later parses"""
+    def failing_source():
+        yield "Source: stale\n"
+        yield " continuation\n"
+        yield "# trailing comment\n"
+        raise RuntimeError("the line source fails")
+    for src in (failing_source, lambda: [b"Stale: 1\n", b"# c\n", b" \xff\xfe\n", b"X: y\n"], lambda: ["A: b\n", "# c\n", ""]):
+        for fn in (lambda x: real_parse(x, accept_files_with_error_tokens=True, accept_files_with_duplicated_fields=True).dump(),
+                   lambda x: list(real_tok(x))):
+            try:
+                fn(src())
+            except Exception:
+                pass
+
+
+def check_lines(real_parse, real_tok, lines, t, mode, form="list"):
+    import io
+    give = {"list": lambda: lines, "generator": lambda: (l for l in lines), "text file object": lambda: io.StringIO("".join(lines))}[form]
     try:
-        doc = real_parse(lines, accept_files_with_error_tokens=True, accept_files_with_duplicated_fields=True)
+        doc = real_parse(give(), accept_files_with_error_tokens=True, accept_files_with_duplicated_fields=True)
         dumped = doc.dump()
-        toks = "".join(tk.text for tk in real_tok(lines))
+        toks = "".join(tk.text for tk in real_tok(give()))
     except Exception as e:
-        return t.failed("accepting parser raised %r" % (e,), lines=lines, mode=mode)
+        return t.failed("accepting parser raised %r" % (e,), lines=lines, mode=mode, lines_given_as=form)
     expect = "".join(lines) if mode != "none-terminated" else "".join(l + "\n" for l in lines)
     if dumped != expect:
-        return t.failed("dump() differs from the input", lines=lines, mode=mode, dump=dumped)
+        return t.failed("dump() differs from the input", lines=lines, mode=mode, dump=dumped, lines_given_as=form)
     if toks != expect:
-        return t.failed("token texts do not concatenate to the input", lines=lines, mode=mode, tokens=toks)
+        return t.failed("token texts do not concatenate to the input", lines=lines, mode=mode, tokens=toks, lines_given_as=form)
     return False
 
 
@@ -95,7 +113,8 @@ def run(ctx):
               "all sequences of <= %d lines over %d representatives (blank, whitespace-only incl. NBSP / form feed, comments, "
               "continuation lines, fields with/without value and odd spacing, case-variant duplicate fields, garbage, non-ASCII, "
               "values containing NBSP / FF / CR / U+2028) in three termination modes (all terminated, last line unterminated, "
-              "none terminated [>= 2 lines]) + seeded longer sequences; non-trivial = distinct (sequence, mode) with >= 2 lines"
+              "none terminated [>= 2 lines]; every fifth sequence also as a generator and as an open text file; a failing parse every 97 "
+              "sequences) + seeded longer sequences; non-trivial = distinct (sequence, mode) with >= 2 lines"
               % (N, len(ATOMS)), "<= %d lines exhaustive%s, longer seeded" % (N, " (length 3 sampled)" if ctx.tier == "quick" else ""))
     seqs = [list(s) for n in range(1, N + 1) for s in itertools.product(ATOMS, repeat=n)]
     if ctx.tier == "quick":
@@ -103,8 +122,18 @@ def run(ctx):
     else:
         seqs = [s for s in seqs if len(s) <= 3] + rng.sample([s for s in seqs if len(s) == 4], 60000)
     seqs += [[rng.choice(ATOMS) for _ in range(rng.randint(4, 9))] for _ in range(1500 if ctx.tier == "quick" else 15000)]
-    for s in seqs:
+    for n_seq, s in enumerate(seqs):
         stop = False
+        if n_seq % 97 == 0:
+            poison(repro.parse_deb822_file, real.tokenize_deb822_file)       # a failed parse in between must leave nothing behind
+        if n_seq % 5 == 0:
+            # the same lines handed over as a generator / as an open text file (a file is split at "\n" only)
+            for form in ("generator", "text file object"):
+                if check_lines(repro.parse_deb822_file, real.tokenize_deb822_file, list(s), t, "terminated", form):
+                    stop = True
+                    break
+            if stop:
+                break
         for mode in ("terminated", "last-unterminated", "none-terminated"):
             if mode == "terminated":
                 lines = list(s)
